@@ -41,8 +41,20 @@ func (g *Gen) semi() *token.Token {
 	return g.ch(';')
 }
 
-func (g *Gen) inlineHTML() *ast.StmtInlineHtml {
+// inlineHTML draws inline HTML. nlOK says that the text may start with a line break: at the start
+// of the file, or behind a close tag that has already taken its own line break ("?>\n").
+func (g *Gen) inlineHTML(nlOK bool) *ast.StmtInlineHtml {
 	s := htmlTexts[g.intn(len(htmlTexts), "html")]
+	if nlOK && g.chance(1, 3, "htmlnl") {
+		// a blank line between two PHP blocks of a template, or text that is only a line break
+		g.feat("inline-html-starts-with-newline")
+		switch g.intn(4, "htmlnlkind") {
+		case 0:
+			s = g.pick("onlynl", "\n", "\r\n", "\n\n")
+		default:
+			s = g.pick("leadnl", "\n", "\r\n", "\n\n", "\n \n") + s
+		}
+	}
 	g.feat("inline-html")
 	t := g.tok(token.T_INLINE_HTML, s)
 	g.setGap(t, GapNone)
@@ -82,7 +94,7 @@ func (g *Gen) StmtList(min, max int, top bool) []ast.Vertex {
 		if endsInCloseTag(lt) {
 			html = true
 			if g.chance(2, 3, "htmlafterclose") {
-				out = append(out, g.inlineHTML())
+				out = append(out, g.inlineHTML(bytes.HasSuffix(lt.Value, []byte("\n"))))
 			}
 		}
 	}
@@ -1109,7 +1121,7 @@ func (g *Gen) Program(minStmts, maxStmts int) *ast.Root {
 	}
 	if len(g.O.LeadHTML) == 0 && !g.O.NoHTML && g.chance(1, 6, "leadhtml") {
 		// a template: text before the first open tag
-		h := g.inlineHTML()
+		h := g.inlineHTML(true)
 		if bytes.HasPrefix(h.Value, []byte("#!")) && bytes.IndexByte(h.Value, '\n') >= 0 {
 			// the first line of a file that starts with "#!" is a shebang line, not text; a second such
 			// line is text again (layout puts the real shebang line in front when the policy has one)
